@@ -456,9 +456,34 @@ class NameConverter(ast.NodeTransformer):
         return any(name in names for names in self.shadowed)
 
     def _visit_scope(self, node, names):
+        # Defaults, decorators and annotations are evaluated where the
+        # function is defined, not inside it: only the parameters' own names
+        # and the body see the names of the new scope
+        args = node.args
+        args.defaults = [self.visit(d) for d in args.defaults]
+        args.kw_defaults = [
+            d if d is None else self.visit(d) for d in args.kw_defaults
+        ]
+        if not isinstance(node, ast.Lambda):
+            node.decorator_list = [self.visit(d) for d in node.decorator_list]
+            if node.returns is not None:
+                node.returns = self.visit(node.returns)
+            for arg in [
+                *args.posonlyargs,
+                *args.args,
+                *args.kwonlyargs,
+                args.vararg,
+                args.kwarg,
+            ]:
+                if arg is not None and arg.annotation is not None:
+                    arg.annotation = self.visit(arg.annotation)
         self.shadowed.append(names)
         try:
-            return self.generic_visit(node)
+            if isinstance(node, ast.Lambda):
+                node.body = self.visit(node.body)
+            else:
+                node.body = [self.visit(stmt) for stmt in node.body]
+            return node
         finally:
             self.shadowed.pop()
 
